@@ -169,9 +169,10 @@ def move_ctor(ck, agg, qf):
     n = 0
     from ..interp import State
     for dst in ("FrameQueue", "FrameQueueFrag"):
+      for nfr, mx in ((3, 2), (8, 10)):
         for src in ("FrameQueue", "FrameQueueFrag"):
             st = State()
-            q = net.sym_queue(st, ck.prog, src, nframes=3, max_size=2, label="queue")
+            q = net.sym_queue(st, ck.prog, src, nframes=nfr, max_size=mx, label="queue")
             lst0 = list(st.heap[st.heap[q.ident].fields[qf].ident].items)
             cls = S[dst]
             new = st.alloc("obj", cls=cls, label="new")
@@ -185,10 +186,10 @@ def move_ctor(ck, agg, qf):
                 nl = out.state.heap[new.ident].fields.get(qf)
                 items = out.state.heap[nl.ident].items if isinstance(nl, Ref) else None
                 agg.add("R12.6", f, "all frames move to the new queue in order (no capacity filter)", items is not None and [i.ident for i in items if isinstance(i, Ref)] == [i.ident for i in lst0],
-                        "%s(%s with 3 frames, max 2): new storage %r" % (dst, src, items))
+                        "%s(%s with %d frames, max %d): new storage holds %s frames" % (dst, src, nfr, mx, len(items) if items is not None else None))
                 ol = out.state.heap[out.state.heap[q.ident].fields[qf].ident].items
                 agg.add("R12.6", f, "the old queue is left empty", not ol, "old storage %r" % (ol,))
-                agg.add("R12.6", f, "max_queue_size is carried over", value_matches(out.state.heap[new.ident].fields.get("max_queue_size"), 2), "new max_queue_size %r" % (out.state.heap[new.ident].fields.get("max_queue_size"),))
+                agg.add("R12.6", f, "max_queue_size is carried over", value_matches(out.state.heap[new.ident].fields.get("max_queue_size"), mx), "new max_queue_size %r" % (out.state.heap[new.ident].fields.get("max_queue_size"),))
                 if dst == "FrameQueueFrag":
                     cf = net.cache_field(ck.prog)
                     c = out.state.heap[new.ident].fields.get(cf)
